@@ -40,8 +40,9 @@ CHECKS = {
              'PyMatching; ldpc\'s osdw_decoding buffer refreshed only when OSD ran); z3 decides length 2n, binary, '
              'syndrome(error+correction)=0, trivial syndrome -> trivial correction (also on a reused decoder) for all '
              'errors. Constructibility over allowed_codes, the real union-find on weight<=2 errors and the real decoders '
-             'on bool / int64 syndromes (weight<=2 errors, union-find up to Toric2DCode(4,4) quick, (4,5) thorough) are '
-             'realised instantiation lists with the real engines.',
+             'on bool / int64 syndromes (weight<=2 errors, union-find up to Toric2DCode(4,4) quick, (4,5) thorough), every '
+             'decoder incl. the incomplete ones on non-cubic lattices (no exception, binary, length 2n) and the boundary '
+             'noise settings (rate 0, one-sided noise) are realised instantiation lists with the real engines.',
         note='The claim is about panqec\'s wiring under the engines\' documented contracts; internals of PyMatching, ldpc, '
              'uf_support, MBP, XCube matching are not encoded (a change inside them is invisible).',
         technique='symbolic execution of real Python (symx) + z3 with contract stubs for C engines', ref='3/C05'),
@@ -101,13 +102,16 @@ CHECKS = {
              'finite whenever all factors are positive doubles. The Metropolis step of the splitting method is decided '
              'with symbolic log-probabilities for two simulations stepped one after the other.',
         note='probability_distribution is a stub (arbitrary distributions); np.prod/np.sum/np.log observed at the numpy '
-             'proxy; floats are reals except in C18/fp/* (n = 4..8, three concrete error patterns).',
+             'proxy; floats are reals except in C18/fp/* (n = 4..8, three concrete error patterns). Also decided: the tables '
+             'are not altered by the query, the factors are still the channel values after get_weights ran on the same '
+             'objects, and the REAL tables of deformed models sum to one (C07\'s symbolic run, reported here).',
         technique='symbolic execution of real Python (symx) + z3 LRA; IEEE-754 terms + cvc5 QF_UFBVFP', ref='3/C18'),
     'C03': dict(
         text='Bounded symbolic execution of the real bs_prod (all 9 representation pairs x 1-D/2-D stack shapes), '
              'converters, bsf_wt, brank and measure_syndrome with every input bit symbolic; z3 decides each '
              'assertion for all bit values at once (n<=3 qubits, <=2 rows quick; n<=6 thorough), plus a QF_BV '
-             'lemma for fixed-width accumulator wrap (overlaps up to 1200). Right level: the property is a '
+             'lemma for fixed-width accumulator wrap (overlaps up to 1200); two- and three-row dense / sparse stacks '
+             'convert row by row (no state carried between rows). Right level: the property is a '
              'finite-field identity over all inputs of a loop-free kernel.',
         note='Trusted: z3, the symx proxies (ints for uint8 cells; wrap handled by the BV lemma whose numpy model is '
              'validated concretely), the csr_shim standing in for scipy csr on symbolic operands. String/int '
@@ -129,7 +133,8 @@ CHECKS = {
         text='Real MatchingDecoder + get_weights with MatchStub: z3 decides that no competitor correction with the same '
              'sector syndrome has smaller TRUE log-likelihood weight (LLR of the X-/Z-flip marginal, ln uninterpreted) '
              'given that PyMatching is minimum-weight for the matrix and weights panqec handed it - i.e. the wiring '
-             '(Hz with X weights, Hx with Z weights, sector halves, and the options passed to the engine: the stub models '
+             '(Hz with X weights, Hx with Z weights, sector halves, the single-sector modes error_type=X / Z, and the options '
+             'passed to the engine: the stub models '
              'pymatching\'s documented merge strategies for parallel edges). With uniform weights, real decode + real is_success '
              'on a symbolic error of weight <= floor((d-1)/2): always corrected (toric / planar / rotated planar).',
         note='Exactness of PyMatching itself, and the union-find / sweep-match end-to-end guarantees, are NOT decided '
@@ -158,7 +163,9 @@ CHECKS = {
         text='Real BatchSimulation / BaseSimulation / save_json / load_json on an in-memory file system; the solver '
              'chooses (n1 <= n2, save_frequency, crash point among all crash opportunities of the first run, kill vs '
              'KeyboardInterrupt, grown specification); after a fault-free restart: completes, exact trial counts, last '
-             'completed save is a prefix, no duplicate trial, no foreign record adopted.',
+             'completed save is a prefix, no duplicate trial, no foreign record adopted, a completed run is on disk. '
+             'Configurations with lines=1 also inject a KeyboardInterrupt before every line of the state-holding '
+             'functions (trial loop, appends, load / save / pause handling).',
         note='Bounded fault-schedule exploration: the schedule variables are realised (the solver enumerates them); byte '
              'offsets are represented by the classes {0, interior, complete}; one crash per history.',
         technique='solver-enumerated fault schedules over the real code (symx realisation) on a modelled file system',
@@ -195,8 +202,9 @@ CHECKS = {
     'C17': dict(
         text='The real in_codespace, is_logical_error and bsf_wt run on a fully symbolic Pauli operator; z3 shows no '
              'operator with zero syndrome, non-trivial logical action and weight < code.d exists and that weight d '
-             'is attained (pseudo-Boolean cardinality), for all configurations with n<=100 (quick) / n<=250, d<=8 '
-             '(thorough).',
+             'is attained (pseudo-Boolean cardinality), for all configurations with n<=100 (quick; every deformation) / '
+             'every deformation for n<=300, d<=8 plus undeformed lattices with 2-D sides <= 9, 3-D sides <= 5, n<=700, '
+             'd<=9 (thorough), plus flat (2,16,16) lattices whose membrane representative has weight 2^8.',
         note='Trusted: z3, symx proxies, csr_shim. d itself is computed concretely by the real property.',
         technique='symbolic execution of real Python (symx proxies) + z3 pseudo-Boolean query', ref='3/C17'),
 }
